@@ -31,7 +31,7 @@ EXPLANATION = ("C19: for every simulator, with all waveform samples / positions 
 
 TOL = Fraction(1, 10 ** 9)
 REDUCE = True     # obligations are normalised modulo the defining equations s^2 = v, cos^2 = 1 - sin^2 of the auxiliary variables
-CONFIG_BUDGET_S = {"quick": 900, "thorough": 3600}
+CONFIG_BUDGET_S = {"quick": 900, "thorough": 1800}
 
 
 def _setup(cfg):
